@@ -9,6 +9,7 @@ VIEW-DELEGATES  derived views hand the unmodified operand (and mode) to the fami
 from __future__ import annotations
 
 import ast
+import copy
 
 from ..cfg import build_cfg
 from ..common import Ctx, call_name, is_name, src
@@ -234,12 +235,56 @@ def _peel(ctx, f, e, operand, mode_param, allowed_cores, problems):
             m = b.params.get("mode")
             if mode_param is not None and not is_name(m, mode_param):
                 problems.append(f"unfold is given mode `{src(m) if m is not None else None}` instead of the view's own `{mode_param}`")
-        if not e.args:
-            problems.append("layout call without operand")
-            return None, None
-        e = e.args[0]
+        if e.args:
+            e = e.args[0]
+        else:
+            # the operand by keyword
+            first = None
+            if ct.kind == "repo":
+                b = bind_call(e, ct.funcs[0], False)
+                first = b.params.get(ct.funcs[0].pos_params[0]) if b.ok else None
+            else:
+                first = next((k.value for k in e.keywords if k.arg in ("tensor", "a", "x")), None)
+            if first is None:
+                problems.append("layout call without operand")
+                return None, None
+            e = first
     problems.append(f"the innermost expression `{src(e)[:60]}` is not a call of the family's reconstruction")
     return None, None
+
+
+def _is_unfold_definition(repo, value, core, mode_param):
+    """``value`` is the body of base.unfold written out, with the reconstruction as tensor and the view's
+    own mode as mode (the comparison is with the definition as it stands in tensorly.base today)"""
+    if mode_param is None or not repo.has_func("tensorly.base.unfold"):
+        return False
+    u = repo.func("tensorly.base.unfold")
+    ur = _single_return(u)
+    if ur is None or len(u.pos_params) < 2:
+        return False
+    t_, m_ = u.pos_params[0], u.pos_params[1]
+
+    class Sub(ast.NodeTransformer):
+        def visit_Name(self, n):
+            if n.id == t_:
+                return copy.deepcopy(core)
+            if n.id == m_:
+                return ast.Name(id=mode_param, ctx=ast.Load())
+            return n
+
+        def visit_Attribute(self, n):
+            self.generic_visit(n)
+            if isinstance(n.value, ast.Name) and n.value.id in ("tl", "T", "tensorly"):
+                return ast.Name(id=n.attr, ctx=ast.Load())  # backend functions under whichever alias
+            return n
+
+    class Strip(Sub):
+        def visit_Name(self, n):
+            return n
+
+    want = Strip().visit(Sub().visit(copy.deepcopy(ur.value)))
+    got = Strip().visit(copy.deepcopy(value))
+    return ast.dump(want) == ast.dump(got)
 
 
 def _check_core_call(ctx, f, call, ct, operand, problems, forward_names):
@@ -265,12 +310,15 @@ def _check_core_call(ctx, f, call, ct, operand, problems, forward_names):
 
 
 def views(ctx, mod, ci, dense_fs, prefix):
+    from ..inline import with_inlined
+
     repo, res = ctx.repo, ctx.res
     fam_funcs = {n: f for n, f in mod.functions.items() if n.startswith(prefix + "_to_")}
     # functional views
     for name, f in sorted(fam_funcs.items()):
         if not name.endswith(VIEW_SUFFIXES):
             continue
+        f = with_inlined(repo, f)  # the delegation may pass through a private helper
         r = _single_return(f)
         if r is None:
             continue  # not a delegation (e.g. cp_to_unfolded computes directly): not an instance
@@ -281,7 +329,7 @@ def views(ctx, mod, ci, dense_fs, prefix):
         if core is not None:
             fwd = [p for p in f.all_params if p not in (operand, "mode")]
             _check_core_call(ctx, f, core, ct, operand, problems, fwd)
-            if name.endswith("_to_unfolded") and not any(isinstance(x, ast.Call) and call_name(x) == "unfold" for x in ast.walk(r.value)):
+            if name.endswith("_to_unfolded") and not any(isinstance(x, ast.Call) and call_name(x) == "unfold" for x in ast.walk(r.value)) and not _is_unfold_definition(repo, r.value, core, mode_param):
                 problems.append("an unfolded view that does not unfold")
         res.instance("VIEW-DELEGATES", f.qname, sample={"return": src(r), "ok": not problems})
         for p in problems:
